@@ -24,9 +24,20 @@ func init() {
 			"(5) PopulateNodeClaimDetails lets NodeClaim labels win over provider labels; " +
 			"(6) instanceTypeNotFound reports drift only when no instance type carries the NodeClaim's instance-type label or Offerings.HasCompatible answers false for that instance type's FULL offering list (not an availability-filtered copy) " +
 			"under the NodeClaim's label requirements, and isDrifted hands it the provider's instance types of the NodeClaim's NodePool; Offerings.HasCompatible answers false only after every offering of the list it is given was found " +
-			"incompatible by reqs.IsCompatible(of.Requirements, AllowUndefinedWellKnownLabels) — no other attribute of an offering (Available, price) lets it pass one over — and true only for a compatible one.",
+			"incompatible by reqs.IsCompatible(of.Requirements, AllowUndefinedWellKnownLabels) — no other attribute of an offering (Available, price) lets it pass one over — and true only for a compatible one; " +
+			"the label requirements it judges by are modified only for a reserved NodeClaim, whose capacity type is widened to reserved|on-demand; " +
+			"(7) from verdict to condition: Drift.Reconcile sets Drifted=True only for a Launched NodeClaim with a non-empty reason from isDrifted and always then, nobody else sets it; it clears Drifted only when the NodeClaim is not launched or not drifted, " +
+			"and a NodeClaim found not drifted does not keep the condition; isDrifted answers with the first non-empty of (static, requirements) drift whenever there is one (nil error), every other answer requires both to be empty; " +
+			"(8) persistence: nodeclaim.disruption fetches the NodePool named by the NodeClaim's nodepool label, runs its reconcilers (Drift among them, all of them, with that NodePool and NodeClaim) only after the fetch succeeded and after taking a DeepCopy, " +
+			"and patches the status unless the NodeClaim equals that copy; nodepool.hash takes its DeepCopy before writing the NodePool's annotations and patches unless equal, does the same for each NodeClaim it re-stamps, and reports a failed NodeClaim patch to Reconcile; " +
+			"(9) fresh NodeClaims: the scheduler's template requirements start from the NodePool's template requirements, the NodeClaim's spec requirements are those minus simulation-only keys only; every requirement key that is not well-known / restricted / simulation-only " +
+			"and has a resolvable value becomes a label (whole map walked, the filled map returned, merged into the emitted NodeClaim's labels), well-known keys never get a guessed label; Launched=True is set only together with PopulateNodeClaimDetails(nodeClaim, created instance), " +
+			"which never overwrites the NodeClaim's annotations without merging its own in.",
 		NotCovered: []string{"hash sensitivity to every remaining template field value (hashstructure internals)", "end-to-end 'a freshly launched NodeClaim is not requirement-drifted' (needs label values chosen by the provider)",
-			"that a provider keeps listing a temporarily unavailable offering (Available=false) instead of omitting it (provider contract, stated in the comment of instanceTypeNotFound)"},
+			"that a provider keeps listing a temporarily unavailable offering (Available=false) instead of omitting it (provider contract, stated in the comment of instanceTypeNotFound)",
+			"pacing of the instance-type check (1h after creation, 30min cache; API-call economy, not part of the statement) and the provider's own IsDrifted answer",
+			"that unmanaged or deleting NodeClaims / unmanaged NodePools are skipped, what happens to the result after a failed status patch (requeue / error classification)",
+			"that the provider returns labels inside the NodeClaim's spec requirements (provider contract); merging of provider annotations at launch (provider-side drift only)"},
 		Rules: c15Rules,
 	})
 }
@@ -36,6 +47,9 @@ func c15Rules(tier string) []Rule {
 	// the labels / annotations resolved at launch are persisted before Launched=True is: a requeue that already sees
 	// Launched skips Launch and would never write them again (the NodeClaim then looks drifted from its NodePool)
 	rules = append(rules, c15InstanceTypeNotFound()...)
+	rules = append(rules, c15Verdict()...)
+	rules = append(rules, c15Persisted()...)
+	rules = append(rules, c15FreshLabels()...)
 	rules = append(rules, NOREACH{ID: "C15.NR1", Fn: "(*life.Controller).Reconcile", From: `^call iface:\(cr/client\.SubResourceWriter\)\.Patch\(iface:\(cr/client\.StatusClient\)\.Status\(\$0\.kubeClient\), `,
 		Sink: `^call iface:\(cr/client\.Writer\)\.Patch\(\$0\.kubeClient, `, Note: "no metadata patch after the status patch"})
 	return rules
@@ -328,4 +342,370 @@ func c15InstanceTypeNotFound() []Rule {
 		), Note: "InstanceTypeNotFound ⇒ instance type missing ∨ no compatible offering in the full list"},
 	}
 	return append(rules, offeringsHasCompatibleRules("C15")...)
+}
+
+// ---------------------------------------------------------------------------------------------------------------------
+// Rules added by the triage of the C15 mutation sweep.
+
+const (
+	c15DriftRec = "(*controllers/nodeclaim/disruption.Drift).Reconcile"
+	c15IsDrift  = "(*controllers/nodeclaim/disruption.Drift).isDrifted"
+	c15ITNF     = "controllers/nodeclaim/disruption.instanceTypeNotFound"
+	c15DisrCtl  = "(*controllers/nodeclaim/disruption.Controller).Reconcile"
+	c15RunRec   = "(*controllers/nodeclaim/disruption.Controller).runReconcilers"
+	c15HashCtl  = "(*controllers/nodepool/hash.Controller).Reconcile"
+	c15HashNC   = "(*controllers/nodepool/hash.Controller).updateNodeClaimHash"
+	c15DeepEq   = `\(k8s\.io/apimachinery/third_party/forked/golang/reflect\.Equalities\)\.DeepEqual\(apim/api/equality\.Semantic\.Equalities, `
+)
+
+// c15Verdict: from the three detectors to the Drifted condition. The detectors themselves are decided by TT1 / PROV3 /
+// MPT2; these rows decide that their answer is what ends up on the NodeClaim:
+//   - the condition is set only for a launched NodeClaim for which isDrifted succeeded with a non-empty reason, and is then
+//     always set; nobody else sets it;
+//   - it is cleared only for a NodeClaim that is not launched or not drifted, and a NodeClaim found not drifted does not
+//     keep a stale condition;
+//   - isDrifted hands back the static / requirements reason whenever one of the two is non-empty (the provider's answer is
+//     consulted only when both are empty);
+//   - the requirements instanceTypeNotFound judges offerings by are the NodeClaim's labels, changed only for a reserved
+//     NodeClaim (whose capacity type is widened to reserved|on-demand).
+func c15Verdict() []Rule {
+	const (
+		launched = `\(\*opkg/status\.Condition\)\.IsTrue\(\(opkg/status\.ConditionSet\)\.Get\(\(\*apis/v1\.NodeClaim\)\.StatusConditions\(\$3, nil\), "Launched"\)\)`
+		launch2  = `\(opkg/status\.ConditionSet\)\.IsTrue\(\(\*apis/v1\.NodeClaim\)\.StatusConditions\(\$3, nil\), "Launched"\)`
+		verdict  = `\(\*controllers/nodeclaim/disruption\.Drift\)\.isDrifted\(\$0, \$2, \$3\)`
+		setD     = `^call \(opkg/status\.ConditionSet\)\.SetTrue\w*\(\(\*apis/v1\.NodeClaim\)\.StatusConditions\(\$3, .*\), "Drifted"`
+		clearD   = `^call \(opkg/status\.ConditionSet\)\.Clear\(\(\*apis/v1\.NodeClaim\)\.StatusConditions\(\$3, .*\), "Drifted"\)$`
+		hasD     = `\(opkg/status\.ConditionSet\)\.Get\(\(\*apis/v1\.NodeClaim\)\.StatusConditions\(\$3, nil\), "Drifted"\) == nil`
+		first    = `lo\.FindOrElse\[cloudprovider\.DriftReason\]\(&local<\[2\]cloudprovider\.DriftReason>\[:\], "", [a-z]+:[^ ]*\)`
+		reqs     = `scheduling\.NewLabelRequirements\(\$1\.ObjectMeta\.Labels\)`
+	)
+	return []Rule{
+		// a NodeClaim that is not launched yet carries none of the provider-resolved labels: judged against the NodePool's
+		// requirements it would always look drifted; an empty reason or a failed evaluation is not drift
+		DOM{ID: "C15.DOM2", Fn: c15DriftRec, Sink: setD, Gates: gates(
+			G(`+^`+launched+`$`, `+^`+launch2+`$`),
+			G(c15NonEmpty(verdict+`#0`)...),
+		), Note: "Drifted=True ⇐ Launched ∧ reason ≠ \"\""},
+		WMC{ID: "C15.WMC2", Sink: `^(call|go|defer) \(opkg/status\.ConditionSet\)\.SetTrue\w*\(.*, "Drifted"`, Allowed: []string{c15DriftRec}, Required: []string{c15DriftRec}},
+		c15PostFromAny("C15.POST1", c15NonEmpty(verdict+`#0`), func(lit string) POST {
+			return POST{Fn: c15DriftRec, FromLit: lit, Must: []string{setD}, Note: "a non-empty drift reason is always recorded as Drifted=True"}
+		}),
+		DOM{ID: "C15.DOM3", Fn: c15DriftRec, Sink: clearD, Gates: gates(
+			G(append([]string{`-^` + launched + `$`, `-^` + launch2 + `$`}, c15Empty(verdict+`#0`)...)...),
+		), Note: "Drifted is cleared only for a NodeClaim that is not launched or was found not drifted"},
+		c15PostFromAny("C15.POST2", c15Empty(verdict+`#0`), func(lit string) POST {
+			return POST{Fn: c15DriftRec, FromLit: lit, Must: []string{clearD}, Excuse: []string{`+^` + hasD + `$`}, Note: "a NodeClaim found not drifted does not keep a Drifted condition"}
+		}),
+
+		// isDrifted: the first non-empty of (static, requirements) is the answer
+		core.Custom{ID: "C15.MPT3", Kind: "MPT", Run: func(w *core.World, id string) []core.Result {
+			fn := w.Fn(c15IsDrift)
+			if fn == nil {
+				return []core.Result{core.Anchor(id, "MPT", c15IsDrift)}
+			}
+			construct := "MPT:" + c15IsDrift + ":static|requirements"
+			g := G(c15Empty(first)...)
+			val := regexp.MustCompile(`^` + first + `$`)
+			var out []core.Result
+			carried := 0
+			for _, s := range w.ReturnSinks(fn, core.RetAny) {
+				v, e := core.ResolveRet(s.Ret, 0), core.ResolveRet(s.Ret, 1)
+				if v != nil && val.MatchString(w.Render(v)) {
+					if e == nil || w.Render(e) != "nil" {
+						out = append(out, core.Bad(id, "MPT", construct, w.InstrPos(s.Ret), "the static / requirements drift reason is returned together with a non-nil error (Drift.Reconcile drops the reason then)"))
+					}
+					carried++
+					continue
+				}
+				if !w.RetGuarded(s, g) {
+					out = append(out, core.Bad(id, "MPT", construct, w.InstrPos(s.Ret), "isDrifted can answer `"+clipStr(w.RenderInstr(s.Ret), 120)+"` although areStaticFieldsDrifted or areRequirementsDrifted reported a reason: that reason is lost"))
+				}
+			}
+			if carried == 0 {
+				out = append(out, core.Bad(id, "MPT", construct, w.Pos(fn.Pos()), "no return of isDrifted hands back the first non-empty of (static, requirements) drift (idiom lo.FindOrElse over the two reasons not recognised)"))
+			}
+			if len(out) == 0 {
+				out = append(out, core.OK(id, "MPT", construct, carried, "every other answer of isDrifted requires both reasons to be empty"))
+			}
+			// the predicate that picks the reason: true exactly for a non-empty reason
+			pred := "@arg:" + c15IsDrift + `|^call lo\.FindOrElse\[cloudprovider\.DriftReason\]\(|2`
+			out = append(out, MPT{ID: id, Fn: pred, Ret: core.RetTrue, Gates: gates(G(`-^\$0 == ""$`, `+^len\(\$0\)>=1$`))}.Check(w)...)
+			out = append(out, MPT{ID: id, Fn: pred, Ret: core.RetFalse, Gates: gates(G(`+^\$0 == ""$`, `-^len\(\$0\)>=1$`))}.Check(w)...)
+			return out
+		}},
+
+		// instanceTypeNotFound: offerings are judged by the NodeClaim's own labels; the only adjustment is for reserved
+		DOM{ID: "C15.DOM4", Fn: c15ITNF, Sink: `^(mapupdate ` + reqs + `\[|call delete\(` + reqs + `, |call \(scheduling\.Requirements\)\.Add\(` + reqs + `, )`, Gates: gates(
+			G(`+^\$1\.ObjectMeta\.Labels\["karpenter\.sh/capacity-type"\] == "reserved"$`),
+		), Note: "the label requirements are modified only for a reserved NodeClaim"},
+		core.Custom{ID: "C15.PROV6", Kind: "PROV", Run: func(w *core.World, id string) []core.Result {
+			rs := core.InstrPresent(w, id, "PROV", c15ITNF, `^mapupdate `+reqs+`\["karpenter\.sh/capacity-type"\] = scheduling\.NewRequirement\("karpenter\.sh/capacity-type", "In", &local<\[\d+\]string>\[:\]\)$`, 1,
+				"a reserved NodeClaim's capacity-type requirement is replaced by an In-requirement (it may have been demoted to on-demand before its label is updated)")
+			rs = append(rs, core.InstrPresent(w, id, "PROV", c15ITNF, `^store &local<\[\d+\]string>\[\d+\] = "on-demand"$`, 1, "…that admits on-demand")...)
+			return append(rs, core.InstrPresent(w, id, "PROV", c15ITNF, `^store &local<\[\d+\]string>\[\d+\] = "reserved"$`, 1, "…and reserved")...)
+		}},
+	}
+}
+
+// c15Persisted: a verdict / a fingerprint that only exists in memory is never observed. The nodeclaim.disruption controller
+// judges the NodeClaim against the NodePool named by its nodepool label (fetched successfully), runs the Drift reconciler
+// and patches the status unless nothing changed relative to a copy taken BEFORE the reconcilers ran; the nodepool.hash
+// controller does the same for the NodePool's annotations and for every NodeClaim it re-stamps.
+func c15Persisted() []Rule {
+	const (
+		ncT     = `<\*apis/v1\.NodeClaim>`
+		npT     = `<\*apis/v1\.NodePool>`
+		ncCopy  = ncT + `\(\*apis/v1\.NodeClaim\)\.DeepCopy\(\$2\)`
+		npCopy  = npT + `\(\*apis/v1\.NodePool\)\.DeepCopy\(\$2\)`
+		getPool = `iface:\(cr/client\.Reader\)\.Get\(\$0\.kubeClient, &local<apim/types\.NamespacedName>, ` + npT + `&local<apis/v1\.NodePool>, nil\)`
+		run     = `^call \(\*controllers/nodeclaim/disruption\.Controller\)\.runReconcilers\(`
+		npStore = `^store \$2\.ObjectMeta\.Annotations = `
+		elem    = `utils/nodeclaim\.ListManaged\(.*\)#0\[[^\]]*\]`
+		ncStore = `^store ` + elem + `\.ObjectMeta\.Annotations = `
+	)
+	same := func(a, b string) string { return `+^` + c15DeepEq + `(` + a + `, ` + b + `|` + b + `, ` + a + `)\)$` }
+	return []Rule{
+		// ---- nodeclaim.disruption controller
+		DOM{ID: "C15.DOM5", Fn: c15DisrCtl, Sink: run, Gates: gates(
+			G(`+^`+getPool+` == nil$`),
+			G(`instr:^call \(\*apis/v1\.NodeClaim\)\.DeepCopy\(\$2\)$`),
+		), Note: "reconcilers run only with a NodePool that was fetched, and after the reference copy was taken"},
+		core.Custom{ID: "C15.PROV7", Kind: "PROV", Run: func(w *core.World, id string) []core.Result {
+			rs := core.InstrPresent(w, id, "PROV", c15DisrCtl, `^store &local<apim/types\.NamespacedName>\.Name = \$2\.ObjectMeta\.Labels\["karpenter\.sh/nodepool"\]#0$`, 1, "the NodePool fetched is the one named by the NodeClaim's nodepool label")
+			rs = append(rs, core.ArgProvenance(w, id, c15DisrCtl, run, 2, `^&local<apis/v1\.NodePool>$`, "the NodePool judged against is the fetched one")...)
+			rs = append(rs, core.ArgProvenance(w, id, c15DisrCtl, run, 3, `^\$2$`, "the NodeClaim judged is the reconciled one")...)
+			// runReconcilers: Drift is among the reconcilers, every reconciler is invoked with (nodePool, nodeClaim)
+			rs = append(rs, core.InstrPresent(w, id, "PROV", c15RunRec, `^(store &local<\[\d+\]controllers/nodeclaim/disruption\.nodeClaimReconciler>\[\d+\] = \$0\.drift|call \(\*controllers/nodeclaim/disruption\.Drift\)\.Reconcile\(\$0\.drift, \$2, \$3\))$`, 1, "the Drift sub-reconciler is one of the reconcilers run")...)
+			rs = append(rs, core.InstrPresent(w, id, "PROV", c15RunRec, `^call (iface:\(controllers/nodeclaim/disruption\.nodeClaimReconciler\)\.Reconcile\(.*\[.*\]|\(\*controllers/nodeclaim/disruption\.Drift\)\.Reconcile\(\$0\.drift), \$2, \$3\)$`, 1, "each reconciler is invoked for (nodePool, nodeClaim)")...)
+			return rs
+		}},
+		DOM{ID: "C15.LOOP1", Fn: c15RunRec, Sink: `^return`, Shallow: true, Gates: gates(G(`-^\(phi\(-1\|\(phi↺ \+ 1\)\) \+ 1\) < len\(`, `instr:^call \(\*controllers/nodeclaim/disruption\.Drift\)\.Reconcile\(\$0\.drift, \$2, \$3\)$`)),
+			Note: "runReconcilers returns only after every reconciler ran (an error of one does not skip the others)"},
+		POST{ID: "C15.POST3", Fn: c15DisrCtl, From: run,
+			Must:   []string{`^call iface:\(cr/client\.SubResourceWriter\)\.(Patch|Update)\(iface:\(cr/client\.StatusClient\)\.Status\(\$0\.kubeClient\), ` + ncT + `\$2, `},
+			Excuse: []string{same(ncCopy, ncT+`\$2`)},
+			Note:   "after the reconcilers ran the status is patched unless the NodeClaim equals the copy taken before"},
+
+		// ---- nodepool.hash controller: the NodePool's own annotations
+		DOM{ID: "C15.DOM6", Fn: c15HashCtl, Sink: npStore, Gates: gates(G(`instr:^call \(\*apis/v1\.NodePool\)\.DeepCopy\(\$2\)$`)),
+			Note: "the reference copy is taken before the hash annotations are written"},
+		POST{ID: "C15.POST4", Fn: c15HashCtl, From: npStore,
+			Must:   []string{`^call iface:\(cr/client\.Writer\)\.(Patch|Update)\(\$0\.kubeClient, ` + npT + `\$2, `},
+			Excuse: []string{same(npCopy, npT+`\$2`)},
+			Note:   "the NodePool is patched unless it equals the copy taken before the annotations were written"},
+
+		// ---- …and the NodeClaims it re-stamps on a hash-version change
+		DOM{ID: "C15.DOM7", Fn: c15HashNC, Sink: ncStore, Min: 2, Gates: gates(G(`instr:^call \(\*apis/v1\.NodeClaim\)\.DeepCopy\(` + elem + `\)$`))},
+		POST{ID: "C15.POST5", Fn: c15HashNC, From: ncStore, Min: 2,
+			Must:   []string{`^call iface:\(cr/client\.Writer\)\.(Patch|Update)\(\$0\.kubeClient, ` + ncT + elem + `, `},
+			Excuse: []string{`+^` + c15DeepEq + ncT + `\(\*apis/v1\.NodeClaim\)\.DeepCopy\(.*\), ` + ncT + elem + `\)$`, `+^` + c15DeepEq + ncT + elem + `, ` + ncT + `\(\*apis/v1\.NodeClaim\)\.DeepCopy\(.*\)\)$`},
+			Note:   "a re-stamped NodeClaim is patched unless it equals the copy taken before"},
+		// a failed NodeClaim patch is reported to Reconcile, which then does not advertise the new version (DOM1c)
+		core.Custom{ID: "C15.ERR1", Kind: "ERRFLOW", Run: func(w *core.World, id string) []core.Result {
+			patch := `iface:\(cr/client\.Writer\)\.Patch\(\$0\.kubeClient, ` + ncT + `utils/nodeclaim\.ListManaged\(`
+			p := POST{ID: id, Fn: c15HashNC, FromLit: `-^` + patch + `.* == nil$`, Must: []string{
+				`^store makeslice<\[\]error>\[.*\] = (cr/client\.IgnoreNotFound\()?` + patch,
+				`^call go\.uber\.org/multierr\.Append\(.*` + patch,
+				`^call append\(.*` + patch,
+				`^return (cr/client\.IgnoreNotFound\()?` + patch,
+			}, Note: "a failed patch is recorded"}
+			rs := p.Check(w)
+			fn := w.Fn(c15HashNC)
+			if fn != nil {
+				if n := len(w.ReturnSinks(fn, core.RetNilConst)); n > 0 {
+					rs = append(rs, core.Bad(id, "ERRFLOW", "ERRFLOW:"+c15HashNC+":return", w.Pos(fn.Pos()), fmt.Sprintf("updateNodeClaimHash has %d return(s) of the constant nil: the recorded patch errors are dropped and the NodePool advertises a hash version its NodeClaims were not re-stamped for", n)))
+				}
+			}
+			return rs
+		}},
+	}
+}
+
+// c15FreshLabels: what a fresh NodeClaim must carry in order not to look requirement-drifted to areRequirementsDrifted
+// (which demands that every key the NodePool requires with In / Exists / Gt / Lt is DEFINED on the NodeClaim's labels):
+//   - the scheduler's template starts from the NodePool's template requirements, and the NodeClaim's spec requirements are
+//     the template's requirements minus the simulation-only keys (the provider chooses within them);
+//   - every user-defined (not well-known) requirement key with a resolvable value becomes a label of the NodeClaim;
+//   - Launched=True is only set after the instance's labels were merged into the NodeClaim (PROV2 decides how).
+func c15FreshLabels() []Rule {
+	const (
+		nnt  = "sched.NewNodeClaimTemplate"
+		tnc  = "(*sched.NodeClaimTemplate).ToNodeClaim"
+		rcl  = "(*sched.NodeClaimTemplate).resolveCustomLabelsFromRequirements"
+		v1t  = "(*apis/v1.NodeClaimTemplate).ToNodeClaim"
+		lrec = "(*life.Launch).Reconcile"
+		nct  = `&local<sched\.NodeClaimTemplate>`
+		key  = `next\(range\(\$0\.Requirements\)\)#1`
+		anyV = `\(\*scheduling\.Requirement\)\.Any\(next\(range\(\$0\.Requirements\)\)#2\)`
+		has  = `\(apim/util/sets\.Set\[string\]\)\.Has\(`
+		put  = `^mapupdate makemap<map\[string\]string>\[` + key + `\] = ` + anyV + `$`
+		pop  = `^call life\.PopulateNodeClaimDetails\(\$2, `
+	)
+	filterPred := "@arg:" + tnc + `|^call lo\.Filter\[\*scheduling\.Requirement, \[\]\*scheduling\.Requirement\]\(|1`
+	return []Rule{
+		core.Custom{ID: "C15.PROV8", Kind: "PROV", Run: func(w *core.World, id string) []core.Result {
+			rs := core.InstrPresent(w, id, "PROV", v1t, `^store &local<apis/v1\.NodeClaim(Spec)?>\.(Spec\.)?Requirements = \$0\.Spec\.Requirements$`, 1, "the template NodeClaim carries the NodePool template's requirements")
+			rs = append(rs, core.InstrPresent(w, id, "PROV", nnt, `^store `+nct+`\.NodeClaim = \(\*apis/v1\.NodeClaimTemplate\)\.ToNodeClaim\(\$0\.Spec\.Template\)$`, 1, "…of this NodePool")...)
+			rs = append(rs, core.InstrPresent(w, id, "PROV", nnt, `^call \(scheduling\.Requirements\)\.Add\(`+nct+`\.Requirements, \(scheduling\.Requirements\)\.Values\(scheduling\.NewNodeSelectorRequirementsWithMinValues\((`+nct+`\.NodeClaim\.Spec\.Requirements|\$0\.Spec\.Template\.Spec\.Requirements)\)\)\)$`, 1,
+				"the scheduling requirements of a template start from the NodePool's template requirements")...)
+			// ToNodeClaim: spec requirements = the template's requirements, filtered
+			rs = append(rs, core.InstrPresent(w, id, "PROV", tnc, `^call lo\.Filter\[\*scheduling\.Requirement, \[\]\*scheduling\.Requirement\]\(\(scheduling\.Requirements\)\.Values\(\$0\.Requirements\), [a-z]+:`, 1, "the NodeClaim's requirements are selected from all of the template's requirements")...)
+			rs = append(rs, core.InstrPresent(w, id, "PROV", tnc, `^store &local<apis/v1\.NodeClaim>\.Spec\.Requirements = \(scheduling\.Requirements\)\.NodeSelectorRequirements\(scheduling\.NewRequirements\(lo\.Filter\[\*scheduling\.Requirement, \[\]\*scheduling\.Requirement\]\(`, 1, "…and serialised into Spec.Requirements")...)
+			return rs
+		}},
+		MPT{ID: "C15.MPT4", Fn: filterPred, Ret: core.RetFalse, Gates: gates(G(`+^` + has + `sched\.schedulingSimulationKeys, \$0\.Key\)$`)),
+			Note: "a requirement is left out of the NodeClaim only when its key is simulation-only (a NodePool requirement never is)"},
+
+		// ---- user-defined requirement keys become labels
+		core.Custom{ID: "C15.PROV9", Kind: "PROV", Run: func(w *core.World, id string) []core.Result {
+			fn := w.Fn(tnc)
+			if fn == nil {
+				return []core.Result{core.Anchor(id, "PROV", tnc)}
+			}
+			construct := "PROV:" + tnc + ":labels"
+			merged := regexp.MustCompile(`^store \$0\.NodeClaim\.ObjectMeta\.Labels = lo\.Assign\[string, string, map\[string\]string\]\(&local<\[\d+\]map\[string\]string>\[:\]\)$`)
+			var out []core.Result
+			n := 0
+			for _, s := range w.SitesOr(fn, regexp.MustCompile(`^store &local<metav1\.ObjectMeta>\.Labels = `), false, 1) {
+				n++
+				r := w.RenderInstr(s)
+				switch {
+				case strings.HasSuffix(r, `= $0.NodeClaim.ObjectMeta.Labels`):
+					if !w.GuardedBy(s, core.Gate{Instrs: []*regexp.Regexp{merged}, Text: "labels merged"}) {
+						out = append(out, core.Bad(id, "PROV", construct, w.InstrPos(s), "the NodeClaim is built from the template's labels before (or without) the labels resolved from the user-defined requirements were merged into them"))
+					}
+				case strings.Contains(r, `= lo.Assign[string, string, map[string]string](&local<`):
+				default:
+					out = append(out, core.Bad(id, "PROV", construct, w.InstrPos(s), "the NodeClaim's labels are `"+clipStr(r, 120)+"`, not the template's labels merged with the labels resolved from the user-defined requirements"))
+				}
+			}
+			if n == 0 {
+				out = append(out, core.Bad(id, "PROV", construct, w.Pos(fn.Pos()), "vacuous: the store of the emitted NodeClaim's labels was not found"))
+			}
+			for _, must := range []string{
+				`^store &local<\[\d+\]map\[string\]string>\[\d+\] = \(\*sched\.NodeClaimTemplate\)\.resolveCustomLabelsFromRequirements\(\$0\)$`,
+				`^store &local<\[\d+\]map\[string\]string>\[\d+\] = \$0\.NodeClaim\.ObjectMeta\.Labels$`,
+			} {
+				if len(w.SitesOr(fn, regexp.MustCompile(must), false, 1)) == 0 {
+					out = append(out, core.Bad(id, "PROV", construct, w.Pos(fn.Pos()), "the labels of the emitted NodeClaim no longer merge `"+must+"` (a user-defined NodePool requirement key without a label makes the fresh NodeClaim RequirementsDrifted)"))
+				}
+			}
+			if len(out) == 0 {
+				out = append(out, core.OK(id, "PROV", construct, n, "labels = Assign(template labels, labels resolved from user-defined requirements)"))
+			}
+			return append(out, c15ReturnsFilledMap(w, id, rcl, put)...)
+		}},
+		ITER{ID: "C15.ITER1", Fn: rcl, Loop: `+^next\(range\(\$0\.Requirements\)\)#0$`, Gates: gates(
+			G(`+^`+has+`apis/v1\.WellKnownLabels, `+key+`\)$`, `+^`+has+`apis/v1\.RestrictedLabels, `+key+`\)$`, `+^`+has+`sched\.schedulingSimulationKeys, `+key+`\)$`,
+				`+^`+anyV+` == ""$`, `-^len\(`+anyV+`\)>=1$`, `instr:`+put),
+		), Note: "every requirement key is either well-known / restricted / simulation-only / without a resolvable value, or becomes a label with the resolved value"},
+		DOM{ID: "C15.LOOP2", Fn: rcl, Sink: `^return`, Shallow: true, Gates: gates(G(`-^next\(range\(\$0\.Requirements\)\)#0$`)), Note: "the labels are returned only after every requirement was looked at"},
+		// a well-known key (instance type, zone, capacity type …) gets its label from the provider at launch; a value guessed
+		// here would win over the provider's (PROV2) and no longer describe the instance the drift checks look up
+		DOM{ID: "C15.DOM8", Fn: rcl, Sink: `^mapupdate makemap<map\[string\]string>\[`, Gates: gates(G(`-^` + has + `apis/v1\.WellKnownLabels, ` + key + `\)$`))},
+
+		// ---- launch
+		// (both happen in memory within one reconcile, so either order is fine; NR1 decides the order of the two patches)
+		core.Custom{ID: "C15.POST6", Kind: "POST", Run: func(w *core.World, id string) []core.Result {
+			const setL = `^call \(opkg/status\.ConditionSet\)\.SetTrue\w*\(.*, "Launched"`
+			before := DOM{ID: id, Fn: lrec, Sink: setL, Gates: gates(G(`instr:` + pop))}.Check(w)
+			if len(before) == 1 && before[0].Status == core.Discharged {
+				return before
+			}
+			after := POST{ID: id, Fn: lrec, From: setL, Must: []string{pop}}.Check(w)
+			if len(after) == 1 && after[0].Status == core.Discharged {
+				return after
+			}
+			for i := range before {
+				before[i].Msg = "Launched=True can be set without the created instance's labels / details being merged into the NodeClaim (PopulateNodeClaimDetails neither before nor after): " + before[i].Msg
+			}
+			return before
+		}},
+		core.Custom{ID: "C15.PROV10", Kind: "PROV", Run: func(w *core.World, id string) []core.Result {
+			rs := core.ArgProvenance(w, id, lrec, pop, 1, `\(\*life\.Launch\)\.launchNodeClaim\(\$0, \$2\)#0`, "the details merged are those of the instance created for this NodeClaim (or its cached copy)")
+			// the NodeClaim's own annotations (the hash fingerprint) survive the merge
+			const popFn = "life.PopulateNodeClaimDetails"
+			fn := w.Fn(popFn)
+			if fn == nil {
+				return append(rs, core.Anchor(id, "PROV", popFn))
+			}
+			n := 0
+			for _, s := range w.SitesOr(fn, regexp.MustCompile(`^store \$0\.ObjectMeta\.Annotations = `), false, 0) {
+				n++
+				if !regexp.MustCompile(`= lo\.Assign\[string, string, map\[string\]string\]\(&local<\[\d+\]map\[string\]string>\[:\]\)$`).MatchString(w.RenderInstr(s)) ||
+					len(w.SitesOr(fn, regexp.MustCompile(`^store &local<\[\d+\]map\[string\]string>\[\d+\] = \$0\.ObjectMeta\.Annotations$`), false, 1)) == 0 {
+					rs = append(rs, core.Bad(id, "PROV", "PROV:"+popFn+":annotations", w.InstrPos(s), "the NodeClaim's annotations are overwritten at launch by `"+clipStr(w.RenderInstr(s), 120)+"` without merging its own in: the nodepool-hash fingerprint is lost and static drift is never detected"))
+				}
+			}
+			if len(rs) == 1 && rs[0].Status == core.Discharged {
+				rs = append(rs, core.OK(id, "PROV", "PROV:"+popFn+":annotations", n, "annotation writes at launch merge the NodeClaim's own annotations in"))
+			}
+			return rs
+		}},
+	}
+}
+
+// c15ReturnsFilledMap: every return of fn hands back the very map the instructions matching putRe store into (two map
+// literals of one type render alike, so this compares the values, not their renderings).
+func c15ReturnsFilledMap(w *core.World, id, fnName, putRe string) []core.Result {
+	fn := w.Fn(fnName)
+	if fn == nil {
+		return []core.Result{core.Anchor(id, "PROV", fnName)}
+	}
+	construct := "PROV:" + fnName + ":returns-filled-map"
+	filled := map[ssa.Value]bool{}
+	for _, s := range w.SitesOr(fn, regexp.MustCompile(putRe), false, 1) {
+		if mu, ok := s.(*ssa.MapUpdate); ok && s.Parent() == fn {
+			filled[mu.Map] = true
+		}
+	}
+	if len(filled) == 0 {
+		// the store sits in a helper (or is gone: ITER1 reports that) — the helper is handed the map, nothing to compare here
+		return core.InstrPresent(w, id, "PROV", fnName, `^return (makemap<map\[string\]string>|phi\(.*makemap<map\[string\]string>.*\))$`, 1, "the resolved labels are returned")
+	}
+	var out []core.Result
+	n := 0
+	for _, s := range w.ReturnSinks(fn, core.RetAny) {
+		n++
+		if v := core.ResolveRet(s.Ret, 0); v == nil || !filled[v] {
+			out = append(out, core.Bad(id, "PROV", construct, w.InstrPos(s.Ret), "`"+clipStr(w.RenderInstr(s.Ret), 100)+"` does not return the map the resolved labels were stored into: user-defined requirement keys get no label"))
+		}
+	}
+	if n == 0 {
+		out = append(out, core.Bad(id, "PROV", construct, w.Pos(fn.Pos()), "vacuous: no return found"))
+	}
+	if len(out) == 0 {
+		out = append(out, core.OK(id, "PROV", construct, n, "the map that was filled is the map returned"))
+	}
+	return out
+}
+
+// c15Empty / c15NonEmpty: the two spellings of "the string x is (not) empty" as literal patterns (x == "" | len(x) == 0).
+func c15Empty(x string) []string {
+	return []string{`+^` + x + ` == ""$`, `-^len\(` + x + `\)>=1$`}
+}
+func c15NonEmpty(x string) []string {
+	return []string{`-^` + x + ` == ""$`, `+^len\(` + x + `\)>=1$`}
+}
+
+// c15PostFromAny: a POST row whose start edge may be spelled by any of several literals: the spellings that occur are
+// all evaluated; when none occurs the row fails as vacuous.
+func c15PostFromAny(id string, lits []string, mk func(lit string) POST) Rule {
+	return core.Custom{ID: id, Kind: "POST", Run: func(w *core.World, _ string) []core.Result {
+		var bound, vacuous []core.Result
+		for _, l := range lits {
+			p := mk(l)
+			p.ID = id
+			rs := p.Check(w)
+			if len(rs) == 1 && rs[0].Status == core.Violated && strings.HasPrefix(rs[0].Msg, "vacuous") {
+				vacuous = append(vacuous, rs...)
+				continue
+			}
+			bound = append(bound, rs...)
+		}
+		if len(bound) == 0 && len(vacuous) > 0 {
+			return vacuous[:1]
+		}
+		return bound
+	}}
 }
